@@ -78,6 +78,29 @@ P.update({
 
 NOT_YET = {}
 
+# additions made after the first build (monitors added in response to independently seeded changes, DESIGN.md section 10)
+SCRIB = "; hostile-caller sanitizer (every pack() result is scribbled over after a copy is handed out)"
+TECH_ADD = {
+    "C01": SCRIB, "C02": "; setter/view history monitor" + SCRIB, "C03": "; setter/view history monitor" + SCRIB,
+    "C04": "; octets produced along setter histories (pack, space-packet view) and PDUs built through setters" + SCRIB,
+    "C05": "; header re-use history (every setter, in-place id assignment); isolation monitor over earlier decoded objects" + SCRIB,
+    "C06": "; construction through setters; isolation monitor (octets and accessor views of earlier decoded objects)" + SCRIB,
+    "C07": "; construction through setters; isolation monitor" + SCRIB,
+    "C08": "; isolation monitor and defaulted-argument monitor" + SCRIB,
+    "C09": SCRIB,
+    "C11": "; untouched-sibling / built-later monitor for objects sharing the caller's configuration" + SCRIB,
+    "C12": "; holder re-use history over all 64 (previous kind, new kind) transitions; isolation monitor" + SCRIB,
+    "C14": "; sub-millisecond boundary grid" + SCRIB,
+    "C15": "; request-id attribute-assignment history; three packet-field construction styles" + SCRIB,
+    "C16": "; report objects built by constructor, Service1Tm.unpack and from_tm (parsed as a batch)",
+    "C17": SCRIB,
+    "C18": "; parameter / LV object re-use across messages" + SCRIB,
+    "C19": "; widths up to 64 bits; width changes through the max_bit_width setter",
+}
+for _k, _v in TECH_ADD.items():
+    _c = P[_k]
+    P[_k] = (_c[0], _c[1] + _v) + _c[2:]
+
 
 def main():
     props = [json.loads(l) for l in open(os.path.join(HERE, "properties.jsonl"))]
